@@ -1,4 +1,5 @@
 import Copia.Lemmas.OneWay
+import Copia.Lemmas.Quote
 /-!
 # C04 — recursive one-way sync delivers exactly its plan (model level)
 
@@ -65,6 +66,32 @@ theorem untouched_outside_plan (le : K → K → Bool) (excl : K → Bool) (wd :
 theorem dry_run (le : K → K → Bool) (excl : K → Bool) (wd : Bool) (S D : Tree K C) :
     (oneWayDry le excl wd S D).dest = D ∧ (oneWayDry le excl wd S D).plan = (oneWay le excl wd S D).plan :=
   ⟨rfl, rfl⟩
+
+/-! ## Remote path quoting (push / pull over SSH)
+
+Every remote path the sources interpolate into a shell command sits between `$'` and `'` after the
+escaping chain regenerated from the source (`Gen.escapePairs`). For EVERY path string — quotes,
+backslashes, newlines, `$`, `;`, backticks, anything — bash's ANSI-C scanner decodes the quoted word
+back to exactly the path and stops at the closing quote the source wrote, so no character of a file
+name is ever interpreted by the remote shell and the command addresses exactly the planned path. -/
+
+/-- C04 (quoting, `cat $'…'`, `cd $'…'`, `touch … $'…'`, `mv … $'…'`) -/
+theorem quoted_path_decodes (path rest : List Char) :
+    Copia.Quote.ansiC (Copia.Quote.escape path ++ '\'' :: rest) = some (path, rest) := by
+  rw [Copia.Quote.ansiC_escape_append, Copia.Quote.ansiC_close]; simp
+
+/-- C04 (quoting of the staging name `$'<escaped>.copia-tmp'`): the suffix is appended AFTER escaping;
+for any suffix without quote or backslash the word decodes to path ++ suffix -/
+theorem quoted_staging_decodes (path suffix rest : List Char)
+    (hs : ∀ c ∈ suffix, c ≠ '\\' ∧ c ≠ '\'') :
+    Copia.Quote.ansiC (Copia.Quote.escape path ++ (suffix ++ '\'' :: rest)) = some (path ++ suffix, rest) := by
+  rw [Copia.Quote.ansiC_escape_append, Copia.Quote.ansiC_plain_append suffix _ hs, Copia.Quote.ansiC_close]; simp
+
+/-- the reserved staging suffix of the sources meets that hypothesis -/
+theorem staging_suffix_plain : ∀ c ∈ ['.', 'c', 'o', 'p', 'i', 'a', '-', 't', 'm', 'p'], c ≠ '\\' ∧ c ≠ '\'' := by decide
+
+/-- sanity: a hostile name -/
+example : Copia.Quote.escape "a'; rm -rf $HOME #\\".toList = "a\\'; rm -rf $HOME #\\\\".toList := by decide
 
 end Copia.C04
 
